@@ -10,6 +10,7 @@ cd "$(dirname "$0")"
 /venv/bin/python harness/py2coq_insert.py "${VERIF_REPO:-/repo}/tinyflux/database.py" coq/gen/InsertGen.v || true
 /venv/bin/python harness/py2coq_read.py "${VERIF_REPO:-/repo}/tinyflux" coq/gen/ReadGen.v || true
 /venv/bin/python harness/py2coq_remove.py "${VERIF_REPO:-/repo}/tinyflux" coq/gen/RemoveGen.v || true
+/venv/bin/python harness/py2coq_update.py "${VERIF_REPO:-/repo}/tinyflux" coq/gen/UpdateGen.v || true
 /venv/bin/python harness/py2coq_handle.py "${VERIF_REPO:-/repo}/tinyflux" coq/gen/HandleGen.v || true
 /venv/bin/python harness/py2coq_codec.py "${VERIF_REPO:-/repo}/tinyflux/point.py" coq/gen/CodecGen.v || true
 /venv/bin/python harness/py2coq_decode.py "${VERIF_REPO:-/repo}/tinyflux/point.py" coq/gen/DecodeGen.v || true
